@@ -179,6 +179,18 @@ func (self *visitorUserNode) OnNull() error {
 	return self.onValueEnd()
 }
 
+// checkScalarTarget rejects a scalar JSON value that arrives where the schema has no scalar:
+// outside any field, or directly as the value of a repeated or map field.
+func checkScalarTarget(global, fd *proto.FieldDescriptor) error {
+	if fd == nil {
+		return newError(meta.ErrDismatchType, "unexpected scalar value", nil)
+	}
+	if global != nil && (global.Type().IsList() || global.Type().IsMap()) {
+		return newError(meta.ErrDismatchType, fmt.Sprintf("field '%s' expects an array or object", global.Name()), nil)
+	}
+	return nil
+}
+
 func (self *visitorUserNode) OnBool(v bool) error {
 	if self.inskip {
 		self.inskip = false
@@ -191,6 +203,12 @@ func (self *visitorUserNode) OnBool(v bool) error {
 	// case PackedList(List bool), get fieldDescriptor from Stack
 	if self.globalFieldDesc == nil && top.typ == arrStkType {
 		fieldDesc = top.state.fieldDesc
+	}
+	if err = checkScalarTarget(self.globalFieldDesc, fieldDesc); err != nil {
+		return err
+	}
+	if fieldDesc.Kind() != proto.BoolKind {
+		return newError(meta.ErrDismatchType, "param isn't boolType", nil)
 	}
 
 	// packed list no need to write tag
@@ -221,6 +239,9 @@ func (self *visitorUserNode) OnString(v string) error {
 	fieldDesc := self.globalFieldDesc
 	if fieldDesc == nil && top != nil && top.Type().IsList() {
 		fieldDesc = top
+	}
+	if err = checkScalarTarget(self.globalFieldDesc, fieldDesc); err != nil {
+		return err
 	}
 
 	if err = self.p.AppendTagByKind(fieldDesc.Number(), fieldDesc.Kind()); err != nil {
@@ -261,6 +282,9 @@ func (self *visitorUserNode) OnInt64(v int64, n json.Number) error {
 	// case PackedList(List<int32/int64/...), get fieldDescriptor from Stack
 	if self.globalFieldDesc == nil && top.typ == arrStkType {
 		fieldDesc = top.state.fieldDesc
+	}
+	if err = checkScalarTarget(self.globalFieldDesc, fieldDesc); err != nil {
+		return err
 	}
 
 	// packed list no need to write tag
@@ -356,6 +380,9 @@ func (self *visitorUserNode) OnFloat64(v float64, n json.Number) error {
 	if self.globalFieldDesc == nil && top.typ == arrStkType {
 		fieldDesc = top.state.fieldDesc
 	}
+	if err = checkScalarTarget(self.globalFieldDesc, fieldDesc); err != nil {
+		return err
+	}
 
 	// packed list no need to write tag
 	if !fieldDesc.Type().IsList() {
@@ -428,7 +455,13 @@ func (self *visitorUserNode) OnObjectBegin(capacity int) error {
 		fieldDesc = top.state.fieldDesc
 	}
 
+	if fieldDesc == nil && (self.sp != 0 || top.typ != objStkType) {
+		return newError(meta.ErrDismatchType, "unexpected object", nil)
+	}
 	if fieldDesc != nil {
+		if !fieldDesc.Type().IsMap() && (fieldDesc.Kind() != proto.MessageKind || (self.globalFieldDesc != nil && fieldDesc.Type().IsList())) {
+			return newError(meta.ErrDismatchType, fmt.Sprintf("field '%s' doesn't expect an object", fieldDesc.Name()), nil)
+		}
 		if fieldDesc.Type().IsMap() {
 			// case Map, push MapDesc
 			if err = self.push(true, false, false, fieldDesc, curNodeLenPos); err != nil {
@@ -613,6 +646,9 @@ func (self *visitorUserNode) OnArrayBegin(capacity int) error {
 	}
 	var err error
 	curNodeLenPos := -1
+	if self.globalFieldDesc == nil || !self.globalFieldDesc.Type().IsList() {
+		return newError(meta.ErrDismatchType, "unexpected array", nil)
+	}
 	if self.globalFieldDesc != nil {
 		// PackedList: encode Tag、Len
 		if self.globalFieldDesc.Type().IsPacked() {
